@@ -115,15 +115,18 @@ def run(chk, tier):
             script = None
             if s == 0:
                 script = [((w - 1) % P) + 1 for w in rnd.choice(scripts)]
-            tr, outs, _ = pr.evaluate("pool", P=P, sched_seed=core.SEED * 1000 + q * 37 + s, script=script,
-                                      switch_prob=rnd.choice([0.01, 0.05, 0.3]))
+            # every other pooled run is the very first evaluation of a brand-new cube object (the serial reference ran on
+            # `pr`): whatever a cube sets up lazily on first use is then set up by racing workers
+            first_use = s % 2 == 1
+            tr, outs, _ = (pr.twin() if first_use else pr).evaluate(
+                "pool", P=P, sched_seed=core.SEED * 1000 + q * 37 + s, script=script, switch_prob=rnd.choice([0.01, 0.05, 0.3]))
             tid += 1
             tr["tid"] = tid
             tr["prop"] = OWN
             tr["sameasserial"] = outs is not None and pl.same_bits(outs, serial)
             traces.append(tr)
             meta[tid] = {"cube": kind, "aggregates": names, "P": P, "tasks": pr.T, "scripted": script is not None,
-                         "cube_had_an_interrupted_pooled_run_before": q % 3 == 0,
+                         "cube_had_an_interrupted_pooled_run_before": q % 3 == 0 and not first_use, "first_evaluation_of_a_new_cube_object": first_use,
                          "case": case.describe(), "exc": getattr(pr, "last_exc", None)}
             steps += tr["steps"]
             switches += tr["switches"]
@@ -136,11 +139,11 @@ def run(chk, tier):
         for j in range(slots):
             k1 = int((j + rnd.random()) * nsteps / slots) + 1
             force = {k1} if j % 2 == 0 else {k1, k1 + rnd.randint(1, max(2, nsteps // slots))}
-            tr, outs, _ = pr.evaluate("pool", P=2, sched_seed=j, force_at=force)
+            tr, outs, _ = (pr.twin() if j % 4 >= 2 else pr).evaluate("pool", P=2, sched_seed=j, force_at=force)
             tid += 1
             tr.update(tid=tid, prop=OWN, sameasserial=outs is not None and pl.same_bits(outs, serial))
             traces.append(tr)
-            meta[tid] = {"cube": kind, "aggregates": names, "P": 2, "tasks": pr.T, "forced_switch_at_steps": sorted(force),
+            meta[tid] = {"cube": kind, "aggregates": names, "P": 2, "tasks": pr.T, "forced_switch_at_steps": sorted(force), "first_evaluation_of_a_new_cube_object": j % 4 >= 2,
                          "of_steps": nsteps, "case": case.describe(), "exc": getattr(pr, "last_exc", None)}
             steps += tr["steps"]
             switches += tr["switches"]
